@@ -70,3 +70,24 @@ Definition tok_shard_results (bitsl : list N) (prefix : str) (alpha : list N) (n
 Definition esc_case (ml : bool) (s : str) : list N := b2n ml :: N.of_nat (length s) :: s ++ escape gen_tables ml s.
 Definition esc_shard_hash (ml : bool) (alpha : list N) (n : nat) : int :=
   sum_hash (map (fun w => hfin (hash_list (esc_case ml w))) (strings_upto alpha n)).
+
+(* ---- chunked reader: results plus the reader state after every call ---- *)
+Open Scope N_scope.
+(** After each call: the encoded result, then [_char_index + 1] and [len(_cur_chunk)]. *)
+Fixpoint chk_trace (T : tables) (o : opts) (n fuel : nat) (line : N) (lcr : bool) (s : chk) : list N :=
+  match n with O => [] | S n' =>
+    let '(r, s') := run_chk (get_token T o fuel line lcr) s in
+    enc_result r ++ [Z.to_N (idx s' + 1); N.of_nat (length (cur s'))] ++
+    match r with
+    | RTok _ _ line' lcr' => chk_trace T o n' fuel line' lcr' s'
+    | _ => []
+    end
+  end.
+(** [whole = true]: the text was passed as one [str] ([chk_of_str]); otherwise as an iterable of chunks. *)
+Definition chk_case (bits : N) (whole : bool) (cs : list str) : list N :=
+  let s := concat cs in
+  chk_trace gen_tables (opts_of_bits bits) (length s + 2) (length s + 2) 1 false
+            (if whole then chk_of_str s else chk_of_chunks cs).
+Definition chk_case_hash (c : N * bool * list str) : int :=
+  hfin (hash_list (chk_case (fst (fst c)) (snd (fst c)) (snd c))).
+Definition flat_case_hash (c : N * str) : int := tok_case_hash (fst c) (snd c).
